@@ -758,7 +758,12 @@ def compile_inheritance_conflict_checks(
         return None
 
     assert isinstance(subject_stype, s_objtypes.ObjectType)
-    modified_ancestors = set()
+    # An insertion-ordered set (the order of the generated conflict
+    # selects must not depend on object hashes).
+    modified_ancestors: Dict[
+        Tuple[s_objtypes.ObjectType, s_objtypes.ObjectType, irast.MutatingStmt],
+        None,
+    ] = {}
     base_object = ctx.env.schema.get(
         'std::BaseObject', type=s_objtypes.ObjectType)
 
@@ -808,14 +813,14 @@ def compile_inheritance_conflict_checks(
                     ctx.env.schema, [subject_stype, typ])
                 for anc in ancs:
                     if anc != base_object:
-                        modified_ancestors.add((subject_stype, anc, ir))
+                        modified_ancestors[(subject_stype, anc, ir)] = None
 
     # If `id` is explicitly written to, synthesize a check against
     # BaseObject to ensure that it doesn't conflict with anything,
     # since we disable the trigger for id's exclusive constraint for
     # performance reasons.
     if has_id_write:
-        modified_ancestors.add((subject_stype, base_object, stmt))
+        modified_ancestors[(subject_stype, base_object, stmt)] = None
 
     conflicters = []
     for subject_stype, anc_type, ir in modified_ancestors:
